@@ -515,9 +515,12 @@ func (f *frame) afterLoopAsserts(b *ssa.BasicBlock, st *State) {
 		if body[b] || len(b.Preds) == 0 || !strings.HasSuffix(b.Comment, ".done") {
 			continue
 		}
-		all := true
+		// the loop's exit block: every way out of the loop (the header's own exit and every break; a block that
+		// only leaves the loop is not part of the natural loop) arrives here, and nothing else does: all its
+		// predecessors are in the loop or are blocks the header dominates that lie outside of it
+		all := b.Idom() == h
 		for _, p := range b.Preds {
-			if !body[p] {
+			if !body[p] && !(h.Dominates(p) && p != b) {
 				all = false
 			}
 		}
@@ -528,6 +531,7 @@ func (f *frame) afterLoopAsserts(b *ssa.BasicBlock, st *State) {
 			if a.Ordinal != f.loopOrd[h] {
 				continue
 			}
+			f.c.hookHits[fmt.Sprintf("after loop %d", a.Ordinal)] = true
 			f.curBlock, f.curIdx = b, firstNonPhi(b)
 			env := f.hereEnv(st)
 			tags := a.Tags
